@@ -186,10 +186,11 @@ theorem rsAlways_traceExt (cx : Ctx) (t : Nat) (sc : Script) (w : World) : Trace
 
 theorem rsFinish_traceExt (cx : Ctx) (t : Nat) (sc : Script) (w : World) :
     TraceExt w (rsFinish cx t sc w).2.2 := by
-  unfold rsFinish
+  rw [rsFinish_world]
   split
   · exact TraceExt.refl w
-  · dsimp only
+  · unfold rsStampW
+    dsimp only
     split
     · exact TraceExt.refl w
     · exact TraceExt.of_eq (addKnown_trace w t)
@@ -297,7 +298,7 @@ theorem buildJob_traceExt (E : Engine) (hE : EngineExt E) (d : Defects) (cx : Ct
       dsimp only
       split
       · exact hs.trans hst
-      · have h1 := hE { cx with noOob := true, unlocked := false, isRedo := false,
+      · have h1 := hE { cx with noOob := true, unlocked := false, isRedo := false, cycles := t :: cx.cycles,
                                 parent := if d.oobRecordsDepsOnCaller then cx.parent else none }
           (if w1.oobRev then ts.eraseDups.reverse else ts.eraseDups) w1
         generalize E.ifchangeCmd _ (if w1.oobRev then ts.eraseDups.reverse else ts.eraseDups) w1 = r1 at h1
